@@ -544,7 +544,8 @@ class XsdAttributeGroup(
                     self.parse_error(msg)
 
                 if base_attr.use != 'optional' and attr.use == 'optional' or \
-                        base_attr.use == 'required' and attr.use != 'required':
+                        base_attr.use == 'required' and attr.use != 'required' or \
+                        base_attr.use == 'prohibited' and attr.use != 'prohibited':
                     msg = _("Attribute {!r}: unmatched attribute use in restriction")
                     self.parse_error(msg.format(name))
 
